@@ -217,7 +217,7 @@ func TestVP_C28_chain_history(t *testing.T) {
 	c := kit.New(t, "C28", "part (c), rapid T.Repeat on a genesis-loaded store (the genesis custodian snapshot is the first consensus record; reset per case): every step stores a fresh snapshot on one of the 7 genesis chains and calls WriteConsensusSnapshot with it; valid steps = consensus-class transaction (mint, pledge, cancel, accept, remove, custodian update, slash) whose first reference is the last recorded operation and whose snapshot is strictly later; invalid steps = wrong/older/missing first reference (also with the right hash in second place), timestamp equal or earlier, two-transaction snapshot, snapshot naming another transaction, non-consensus class, non-nil hack with an existing chain, an older recorded operation again; replays of the last operation (same snapshot, or the same transaction in another snapshot). An invalid call must panic/err and leave the key/value dump unchanged; after every call the CONSENSUSSNAPSHOT records read in key order must be one chain (strictly increasing timestamps, value = next record's transaction, last value empty, single-transaction snapshots, each operation's first reference = previous operation) and equal the list of valid operations; non-trivial = >=3 chained operations and >=1 rejected; distinct by op trace")
 	c.Require("chain>=3", "rejected", "replay-same", "replay-other-snapshot", "invalid:reference", "invalid:second-reference-only", "invalid:timestamp-equal", "invalid:timestamp-earlier", "invalid:two-transactions", "invalid:class", "invalid:hack", "invalid:old-operation", "public-path")
 	c.Assume("the snapshot passed to WriteConsensusSnapshot is already finalized in the store (kernel: reloadConsensusState runs after WriteSnapshot)", "invalid input is answered by the documented assertion panics; they are recovered and only required to leave the database unchanged")
-	kit.SetChecks(kit.N(150, 10000))
+	kit.SetChecks(kit.N(150, 3600))
 	kit.SetSteps(20)
 	sh := vpC28Open(t)
 	serial := 0
